@@ -93,6 +93,8 @@ namespace
       case 3: domain.select_partitioners(false, false, true, false, 0, 0, 1);
         domain.use_explicit = true; domain.explicit_level = cfg.assign_level; domain.explicit_seed = cfg.assign_seed; domain.explicit_mode = cfg.adapt; break;
       }
+      // element weights disable every a-priori partitioning (extern, 2-level, explicit): use them with the naive one only
+      if(cfg.parti == 1) { domain.weight_mode = cfg.weight_mode; domain.weight_seed = cfg.assign_seed; if(wrank == 0 && cfg.weight_mode != 0) sim::probe("weighted_naive_partitioner_world"); }
       domain.set_desired_levels(String(cfg.levels));
       std::deque<String> files; files.push_back(String(cfg.mesh_file));
       domain.create(files, String("/repo/data/meshes"));
